@@ -105,3 +105,19 @@ Proof.
   apply request_round_trip_proof; try assumption.
   - apply fwd_fields_ok; assumption.
 Qed.
+
+(* for every path that is empty or starts with "/" and every query, what goes on the wire is the origin-form of RFC 9112 *)
+Lemma wire_target_is_origin_form_proof path query :
+  (path = [] \/ exists p, path = 47 :: p) ->
+  wire_target true (crate_as_str path query) = origin_form path query.
+Proof.
+  intros [->|[p ->]]; unfold crate_as_str, origin_form, wire_target.
+  - destruct query as [q|]; reflexivity.
+  - reflexivity.
+Qed.
+
+(* as found: an empty path in front of a query was written as no path at all *)
+Lemma empty_path_before_query_was_lost :
+  wire_target false (crate_as_str [] (Some [120; 61; 49])) = [63; 120; 61; 49]
+  /\ origin_form [] (Some [120; 61; 49]) = [47; 63; 120; 61; 49].
+Proof. vm_compute. split; reflexivity. Qed.
